@@ -25,7 +25,7 @@ func verifHarness_emulatedMul() {
 	case 0: // two elements in normal form
 		a, b = verifEmElement(f, EMNBLIMBS, 0), verifEmElement(f, EMNBLIMBS, 0)
 	case 1: // operands that have to be reduced first
-		a, b = verifEmElement(f, EMNBLIMBS, 1+uint(verifChoose(2))), verifEmElement(f, EMNBLIMBS, uint(verifChoose(2)))
+		a, b = verifEmElement(f, EMNBLIMBS, 1+uint(verifChoose(2))), verifEmElement(f, EMNBLIMBS, uint(verifChoose(MULBOTHOF)))
 	case 2: // short operands
 		a, b = verifEmElement(f, 1, 0), verifEmElement(f, EMNBLIMBS, 0)
 	}
